@@ -326,7 +326,7 @@ def run_literal(desc):
         entries = [p for p, _d, _l in model.all_entries(follow=False, max_depth=6)]
         n = 0
         for segs in FC.literal_variants(entries):
-            for cfg in ({}, {'icase': True}, {'icase': True, 'globstar': True}, {'globstar': True, 'dot': True}, {'matchbase': True, 'escsep': True}):
+            for cfg in ({}, {'icase': True}, {'icase': True, 'globstar': True}, {'globstar': True, 'dot': True}, {'matchbase': True, 'escsep': True}, {'icase': True, 'case': True}):
                 if any(isinstance(x, str) for x in segs) and not cfg.get('globstar'):
                     continue
                 if cfg.get('escsep') and len(segs) < 2:
